@@ -11,6 +11,7 @@ import (
 	"fmt"
 	"math"
 	"math/big"
+	"math/bits"
 	"os"
 
 	"github.com/tuneinsight/lattigo/v6/core/rlwe"
@@ -197,6 +198,17 @@ func polyEq(a, b ring.Poly, lvl int) bool {
 		}
 	}
 	return true
+}
+
+func plantTop(rq *ring.Ring, pl ring.Poly, lvl int) {
+	for i, sr := range rq.SubRings[:lvl+1] {
+		q := sr.Modulus
+		top := uint64(1) << uint(bits.Len64(q)-1)
+		pl.Coeffs[i][0], pl.Coeffs[i][1] = q-1, q-2
+		if top < q {
+			pl.Coeffs[i][2], pl.Coeffs[i][3] = top, top+(q-top)/2
+		}
+	}
 }
 
 // fresh encryption
@@ -502,6 +514,15 @@ func runKs(cf cfg) []ev {
 			*ct2.MetaData = *ct.MetaData
 			c2 := rq.NewPoly()
 			ring.NewUniformSampler(c.prng, rq).Read(c2)
+			// a few coefficients of the component to be decomposed sit at the top of each residue range (q-1, q-2, the
+			// highest power of two below q and a value above it): the digits of a base-two decomposition must cover them
+			if !cf.Ntt {
+				plantTop(rq, c2, cf.Ctlvl)
+			} else {
+				rq.INTT(c2, c2)
+				plantTop(rq, c2, cf.Ctlvl)
+				rq.NTT(c2, c2)
+			}
 			s2 := rq.NewPoly()
 			rq.MulCoeffsMontgomery(c.sk.Value.Q, c.sk.Value.Q, s2) // s^2, Montgomery form, NTT
 			t := rq.NewPoly()
